@@ -29,8 +29,11 @@ func (p StoreParams) has(o string) bool {
 
 var vWorkerWorld *VWorld
 
+// vWorldMaxHists: a worker's store is replaced by a fresh one after this many histories/executions.
+var vWorldMaxHists = 2000
+
 func vWorld() *VWorld {
-	if vWorkerWorld != nil && vWorkerWorld.Hists >= 2000 {
+	if vWorkerWorld != nil && vWorkerWorld.Hists >= vWorldMaxHists {
 		vWorkerWorld.Destroy()
 		vWorkerWorld = nil
 	}
